@@ -1,7 +1,159 @@
 import KitModel.Go.Prelude
-/-! Driver for property C13: `kitdrv C13` reads op lines on stdin, one answer line per input line. -/
+import KitModel.Locks
+/-!
+Driver for property C13: `kitdrv C13` reads one line per request, answers one line.
+
+  new prim=<fifomutex|fifomap|cmap|context|outer> n=<callers> [keys=<K>] [rc=<0|1>] [grace=<G>]
+      start a trace: state set := τ-closure {init}; answer `ok <set size>`
+  call t=<T> op=<…> [k=<K>] [md=w|r] [del=0|1]   |  ret t=<T> [v=<N>]  |  probe t=<T> p=<…> [v=<N>]
+  | env e=<…> [t=<T>]
+      one observable event: successors of every state in the set, then τ-closure;
+      answer `ok <set size>` or `reject <event>` (and every later event of the trace `dead`).
+
+Everything is computed by the model's executable `step` through `Sim.observe`.
+-/
 namespace Driver.C13
+open Kit Kit.Locks
+
+def fuel : Nat := 200000
+
+inductive Session where
+  | none
+  | dead
+  | fmutex (set : List FifoMutex.State)
+  | fmap (set : List FifoMap.State)
+  | cmap (set : List CMap.State)
+  | ctx (set : List Context.State)
+
+def answer (n : Nat) (line : String) : String :=
+  if n == 0 then s!"reject {line.trimAscii.toString}" else s!"ok {n}"
+
+def parseFMutex (l : Line) : Option FifoMutex.L := do
+  let t ← l.nat? "t"
+  match l.op with
+  | "call" => match l.get? "op" with
+    | some "lock" => some (.call t .lock)
+    | some "unlock" => some (.call t .unlock)
+    | _ => none
+  | "ret" => some (.ret t ())
+  | "probe" => match l.get? "p" with
+    | some "blocked" => some (.probe t .blocked)
+    | _ => none
+  | _ => none
+
+def parseFMap (l : Line) : Option FifoMap.L := do
+  let t ← l.nat? "t"
+  match l.op with
+  | "call" => match l.get? "op" with
+    | some "lock" => do let k ← l.nat? "k"; some (.call t (.lock k))
+    | some "unlock" => some (.call t .unlock)
+    | _ => none
+  | "ret" => some (.ret t ())
+  | "probe" => match l.get? "p" with
+    | some "blocked" => some (.probe t .blocked)
+    | some "hook" => some (.probe t .atHook)
+    | some "len" => do let v ← l.nat? "v"; some (.probe t (.len v))
+    | _ => none
+  | _ => none
+
+def parseMode (l : Line) : Option CMap.Mode :=
+  match l.get? "md" with
+  | some "w" => some .w
+  | some "r" => some .r
+  | _ => none
+
+def parseCMap (l : Line) : Option CMap.L := do
+  let t ← l.nat? "t"
+  match l.op with
+  | "call" => match l.get? "op" with
+    | some "lock" => do let k ← l.nat? "k"; let md ← parseMode l; some (.call t (.lock k md))
+    | some "unlock" => do let d ← l.nat? "del"; some (.call t (.unlock (d != 0)))
+    | some "delete" => do let k ← l.nat? "k"; some (.call t (.delete k))
+    | some "clear" => some (.call t .clear)
+    | some "count" => some (.call t .count)
+    | _ => none
+  | "ret" => some (.ret t (l.nat? "v"))
+  | "probe" => match l.get? "p" with
+    | some "blocked" => some (.probe t .blocked)
+    | some "hook" => some (.probe t .atHook)
+    | _ => none
+  | _ => none
+
+def parseCtx (l : Line) : Option Context.L :=
+  match l.op with
+  | "env" => do
+    let t ← l.nat? "t"
+    match l.get? "e" with
+    | some "cancel" => some (.env (.cancel t))
+    | _ => none
+  | "call" => do
+    let t ← l.nat? "t"
+    match l.get? "op" with
+    | some "lock" => do
+      let md ← (match l.get? "md" with | some "w" => some Context.Mode.w | some "r" => some Context.Mode.r | _ => none)
+      let pre ← l.nat? "pre"
+      some (.call t (.lock md (pre != 0)))
+    | some "unlock" => some (.call t .unlock)
+    | _ => none
+  | "ret" => do
+    let t ← l.nat? "t"
+    some (.ret t ((l.nat? "v").getD 0 != 0))
+  | _ => none
+
+def startSession (l : Line) : Session × String :=
+  let n := (l.nat? "n").getD 0
+  let keys := (l.nat? "keys").getD 1
+  match l.get? "prim" with
+  | some "fifomutex" =>
+    let set := FifoMutex.sim.start fuel (FifoMutex.init n)
+    (.fmutex set, s!"ok {set.length}")
+  | some "fifomap" =>
+    let set := FifoMap.sim.start fuel (FifoMap.init n keys)
+    (.fmap set, s!"ok {set.length}")
+  | some "cmap" =>
+    let rc := (l.nat? "rc").getD 1 != 0
+    let set := CMap.sim.start fuel (CMap.init rc n keys)
+    (.cmap set, s!"ok {set.length}")
+  | some "context" =>
+    let set := Context.sim.start fuel (Context.init n)
+    (.ctx set, s!"ok {set.length}")
+  | _ => (.none, "error unknown-prim")
+
+def stepLine (sess : Session) (raw : String) : Session × String :=
+  let l := parseLine raw
+  if l.op == "new" then startSession l
+  else match sess with
+  | .none => (.none, "error no-session")
+  | .dead => (.dead, "dead")
+  | .fmutex set =>
+    match parseFMutex l with
+    | some a => let set' := FifoMutex.sim.observe fuel set a
+                (if set'.isEmpty then .dead else .fmutex set', answer set'.length raw)
+    | none => (sess, "error parse")
+  | .fmap set =>
+    match parseFMap l with
+    | some a => let set' := FifoMap.sim.observe fuel set a
+                (if set'.isEmpty then .dead else .fmap set', answer set'.length raw)
+    | none => (sess, "error parse")
+  | .cmap set =>
+    match parseCMap l with
+    | some a => let set' := CMap.sim.observe fuel set a
+                (if set'.isEmpty then .dead else .cmap set', answer set'.length raw)
+    | none => (sess, "error parse")
+  | .ctx _ => (sess, "error internal")
+
+def stepLine2 (sess : Session) (raw : String) : Session × String :=
+  let l := parseLine raw
+  match sess with
+  | .ctx set =>
+    if l.op == "new" then startSession l else
+    match parseCtx l with
+    | some a => let set' := Context.sim.observe fuel set a
+                (if set'.isEmpty then .dead else .ctx set', answer set'.length raw)
+    | none => (sess, "error parse")
+  | _ => stepLine sess raw
+
 def main (_args : List String) : IO UInt32 := do
-  IO.eprintln "kitdrv: C13 has no model driver yet"
-  return 2
+  lineLoop stepLine2 Session.none
+  return 0
 end Driver.C13
